@@ -52,6 +52,7 @@ type HistOpts struct {
 	WFire         int
 	WStopRel      int
 	WRead         int
+	HTTP          bool // observe (and drive half of the requests) through the real HTTP handler with a valid token
 }
 
 func (o *HistOpts) defaults() {
@@ -108,6 +109,9 @@ type seqRun struct {
 	step  int
 	view  core.View
 	dead  bool // a watchdog fired: stop driving
+	api   *core.API
+	orders       map[string][]string
+	orderChecked map[string]bool
 }
 
 func (h *HistResult) sit(prop, s string) {
@@ -173,6 +177,9 @@ func RunHistory(seed int64, o HistOpts) *HistResult {
 	q := &seqRun{o: o, r: r, sys: sys, m: model.New(gen.ModelCfg(specs)), specs: specs, byID: map[string]*JobRec{}, res: res}
 	for _, s := range specs {
 		q.journal("pipeline %s: %s failfast=%v tasks=%v deps=%v cyclic=%v", s.Name, classOf(s), !s.Def.ContinueRunningTasksAfterFailure, s.Graph.Names, s.Graph.Deps, s.Graph.Cyclic)
+	}
+	if o.HTTP {
+		q.api = core.NewAPI(sys.R, nil, "0123456789abcdef-harness-secret", false)
 	}
 	q.view = sys.Snapshot(-1)
 	for q.step = 1; q.step <= o.MaxOps && !q.dead; q.step++ {
@@ -339,7 +346,12 @@ func (q *seqRun) opSchedule() {
 	saveBefore := 0
 	callSeq := q.sys.Log.NextSeq()
 	t0 := time.Now()
-	id, cls := q.sys.Schedule(0, p, vars, fmt.Sprintf("user%d", q.r.Intn(3)))
+	var id, cls string
+	if q.api != nil && q.r.Intn(2) == 0 {
+		id, cls = q.sys.ScheduleHTTP(0, q.api, p, vars)
+	} else {
+		id, cls = q.sys.Schedule(0, p, vars, fmt.Sprintf("user%d", q.r.Intn(3)))
+	}
 	retSeq := q.sys.Log.NextSeq()
 	_ = saveBefore
 	q.res.sit("C05", sitKey)
@@ -639,6 +651,9 @@ func (q *seqRun) compare(v core.View) {
 			q.find([]string{"C15"}, "C15:pipeline-not-listed", "pipeline %s missing from ListPipelines", p)
 		}
 	}
+	if q.api != nil {
+		q.compareHTTP(v, flags)
+	}
 	// per job
 	for _, j := range q.jobs {
 		mj := q.m.Jobs[j.ID]
@@ -680,7 +695,58 @@ func (q *seqRun) compare(v core.View) {
 	}
 }
 
+// checkTaskOrder: tasks are listed after the tasks they depend on (acyclic graphs), in an order that depends only on
+// the definition (all jobs of the same definition list the same order)
+func (q *seqRun) checkTaskOrder(j *JobRec, oj *core.JobSnap) {
+	var order []string
+	pos := map[string]int{}
+	for i, t := range oj.Tasks {
+		order = append(order, t.Name)
+		pos[t.Name] = i
+	}
+	if len(order) != len(j.Spec.Graph.Names) {
+		q.find([]string{"C15", "C16"}, "C15:task-list-differs-from-definition", "J%d lists tasks %v, its definition has %v", j.Ord, order, j.Spec.Graph.Names)
+		return
+	}
+	if !j.Spec.Graph.Cyclic {
+		for _, t := range oj.Tasks {
+			for _, d := range j.Spec.Def.Tasks[t.Name].DependsOn {
+				if pos[d] > pos[t.Name] {
+					q.find([]string{"C15"}, "C15:task-listed-before-its-dependency", "J%d lists task %s before its dependency %s: %v", j.Ord, t.Name, d, order)
+				}
+			}
+		}
+	}
+	key := j.Pipe + "|" + fmt.Sprint(j.Spec.Graph.Names) + fmt.Sprint(j.Spec.Graph.Deps)
+	if q.orders == nil {
+		q.orders = map[string][]string{}
+	}
+	if prev, ok := q.orders[key]; ok {
+		if !eqStr(prev, order) {
+			q.find([]string{"C15"}, "C15:task-order-not-deterministic", "two jobs of the same definition list their tasks in different orders: %v vs %v", prev, order)
+		}
+	} else {
+		q.orders[key] = order
+		q.res.sit("C15", fmt.Sprintf("task order of graph with %d tasks %d edges cyclic=%v", len(order), edgeCount(j.Spec.Graph), j.Spec.Graph.Cyclic))
+	}
+}
+
+func edgeCount(g gen.Graph) int {
+	n := 0
+	for _, d := range g.Deps {
+		n += len(d)
+	}
+	return n
+}
+
 func (q *seqRun) checkTimes(j *JobRec, oj *core.JobSnap) {
+	if !q.orderChecked[j.ID] {
+		if q.orderChecked == nil {
+			q.orderChecked = map[string]bool{}
+		}
+		q.orderChecked[j.ID] = true
+		q.checkTaskOrder(j, oj)
+	}
 	if oj.Start != nil && oj.Start.Before(oj.Created) {
 		q.find([]string{"C15"}, "C15:start-before-created", "J%d start %v before created %v", j.Ord, oj.Start, oj.Created)
 	}
@@ -841,6 +907,80 @@ func (q *seqRun) drain() {
 		q.res.sit("C03", fmt.Sprintf("drain %s delay=%v", classOf(j.Spec), j.Spec.Def.StartDelay > 0))
 		if !oj.Terminal() {
 			q.find([]string{"C03"}, "C03:not-terminal-after-drain", "J%d (%s) is neither completed nor canceled after all tasks were released and all delays expired: start=%v", j.Ord, j.Pipe, oj.Start != nil)
+		}
+	}
+}
+
+// compareHTTP checks that the HTTP API reports exactly the state that the runner reports in the same quiescent state
+func (q *seqRun) compareHTTP(v core.View, flags map[string]prunner.PipelineInfo) {
+	pipes, jobs, err := q.api.PipelinesJobs()
+	if err != nil {
+		q.find([]string{"C15"}, "C15:http-pipelines-jobs-failed", "%v", err)
+		return
+	}
+	q.res.sit("C15", fmt.Sprintf("http list pipelines=%d jobs=%d", len(pipes), len(jobs) > 0))
+	for _, p := range pipes {
+		fl, ok := flags[p.Pipeline]
+		if !ok || fl.Schedulable != p.Schedulable || fl.Running != p.Running {
+			q.find([]string{"C15"}, "C15:http-flags-differ-from-runner", "GET /pipelines/jobs reports %+v, ListPipelines %+v", p, fl)
+		}
+	}
+	if len(pipes) != len(flags) {
+		q.find([]string{"C15"}, "C15:http-pipeline-list", "GET /pipelines/jobs lists %d pipelines, runner %d", len(pipes), len(flags))
+	}
+	if len(jobs) != len(v.Jobs) {
+		q.find([]string{"C15"}, "C15:http-job-list-size", "GET /pipelines/jobs lists %d jobs, runner %d", len(jobs), len(v.Jobs))
+	}
+	// newest first
+	for i := 1; i < len(jobs); i++ {
+		a, b := v.ByID(jobs[i-1].ID), v.ByID(jobs[i].ID)
+		if a != nil && b != nil && a.Created.Before(b.Created) {
+			q.find([]string{"C15"}, "C15:job-list-not-newest-first", "%s is listed before %s but was created earlier", q.jn(a.ID), q.jn(b.ID))
+		}
+	}
+	for i := range jobs {
+		aj := &jobs[i]
+		oj := v.ByID(aj.ID)
+		if oj == nil {
+			q.find([]string{"C15"}, "C15:http-unknown-job", "job %s listed by the API is unknown to the runner", aj.ID)
+			continue
+		}
+		q.compareAPIJob(aj, oj, "list")
+	}
+	// detail of a few jobs
+	for n := 0; n < 2 && len(q.jobs) > 0; n++ {
+		j := q.jobs[q.r.Intn(len(q.jobs))]
+		aj, code, err := q.api.JobDetail(j.ID)
+		if err != nil || aj == nil {
+			q.find([]string{"C15"}, "C15:http-job-detail-failed", "GET /job/detail of J%d: code %d err %v", j.Ord, code, err)
+			continue
+		}
+		if oj := v.ByID(j.ID); oj != nil {
+			q.compareAPIJob(aj, oj, "detail")
+		}
+	}
+}
+
+func (q *seqRun) compareAPIJob(aj *core.APIJob, oj *core.JobSnap, where string) {
+	errored := false
+	for _, t := range oj.Tasks {
+		errored = errored || t.Errored
+	}
+	le := ""
+	if aj.LastError != nil {
+		le = *aj.LastError
+	}
+	if aj.Completed != oj.Completed || aj.Canceled != oj.Canceled || aj.Errored != errored || (aj.LastError != nil) != oj.HasError || le != oj.LastError || aj.Pipeline != oj.Pipeline || (aj.Start != nil) != (oj.Start != nil) || (aj.End != nil) != (oj.End != nil) {
+		q.find([]string{"C15", "C08"}, "C15:http-job-differs-from-runner", "%s (%s): API completed=%v canceled=%v errored=%v lastError=%q, runner completed=%v canceled=%v errored=%v lastError=%q", q.jn(oj.ID), where, aj.Completed, aj.Canceled, aj.Errored, le, oj.Completed, oj.Canceled, errored, oj.LastError)
+	}
+	if len(aj.Tasks) != len(oj.Tasks) {
+		q.find([]string{"C15"}, "C15:http-task-list-size", "%s: API lists %d tasks, runner %d", q.jn(oj.ID), len(aj.Tasks), len(oj.Tasks))
+		return
+	}
+	for i := range aj.Tasks {
+		at, ot := aj.Tasks[i], oj.Tasks[i]
+		if at.Name != ot.Name || at.Status != ot.Status || at.Errored != ot.Errored || at.ExitCode != ot.ExitCode || (at.Error != nil) != ot.HasError {
+			q.find([]string{"C15", "C08"}, "C15:http-task-differs-from-runner", "%s task %d: API %s/%s errored=%v exit=%d, runner %s/%s errored=%v exit=%d", q.jn(oj.ID), i, at.Name, at.Status, at.Errored, at.ExitCode, ot.Name, ot.Status, ot.Errored, ot.ExitCode)
 		}
 	}
 }
